@@ -31,7 +31,7 @@ ATOL = 0.0
 RULE = ('systematic sweep: every contracted operation of the table (%d of %d entries; the rest are recorded exemptions) x '
         'every call variant x 20 operand classes (pardim 1-3 x rational x periodic(first direction) x dimension 2/3; volumes in 3D), '
         'extra operands (append/loft/edge_curves/sweep/...) drawn with independent rationality/dimension; plus random histories '
-        '(2-6 steps quick, up to 14 thorough) over live handles.  distinct = distinct (class, history) request lines; '
+        '(2-6 steps quick, up to 14 thorough) over live handles.  distinct = distinct (class, operand data, history) request lines; '
         'non-trivial = at least one step of the history completed without raising.'
         % (sum(e.contracted for e in T.TABLE), len(T.TABLE)))
 TRUSTED_EXTRA = [
@@ -220,7 +220,10 @@ def _container_objects(sp, x):
         if cat.pardim > 0:
             nodes = list(T._mod(sp, 'utils').uniquify(itertools.chain.from_iterable(cat.internal.values())))
         else:
-            nodes = list(cat.lower.values())
+            # the VertexDict's own list of values: looking points up by (approximate) key would fail
+            # once the isolation experiment has moved the stored points
+            vals = getattr(cat.lower, '_values', None)
+            nodes = [n for n in (vals if vals is not None else list(cat.lower.values())) if n is not None]
         objs += [n.obj for n in nodes]
         cat = cat.lower
     return objs
@@ -512,7 +515,9 @@ def model_line(spec):
     r = execute(_sp(), spec)
     steps = [[Word(s['op']), s['args'], spec['flavour'] + i, s['new_pd'], s['raised'] is not None]
              for i, s in enumerate(r['steps'])]
-    return line('c11_hist', Word(spec['cls']), r['init_pd'], steps)
+    import hashlib
+    tag = hashlib.sha256(json.dumps(spec['init'], sort_keys=True).encode()).hexdigest()[:8]   # operand data (ignored by the model)
+    return line('c11_hist', Word(spec['cls'] + ':' + tag), r['init_pd'], steps)
 
 
 def run_impl(sp, spec):
